@@ -35,7 +35,7 @@ theorem dispatch_cons (tbl : Table E S R) (ced : Bool) (env : E) (s : S) (idx b0
         if (splitType b0).2 then (s, .ignored)
         else if ced && decide (entFloor ≤ (splitType b0).1) then (s, .ignored)
         else (s, .panicUnknown) := by
-  simp only [dispatch]
+  rfl
 
 theorem dispatch_env_irrelevant (tbl : Table E S R) (hI : EnvIndependent tbl) (ced : Bool) (e₁ e₂ : E)
     (s : S) (idx : Nat) (buf : Bytes) :
@@ -146,7 +146,7 @@ theorem runFrom_results_length (tbl : Table E S R) (ced : Bool) (envs : Nat → 
     · simp
     · have := ih (pos + 1) (dispatch tbl ced (envs pos) s idx buf).1
       simp only [List.length_cons]
-      omega
+      exact ⟨by omega, fun hc => by have := this.2 hc; omega⟩
 
 /-- a surviving replica has no panic among its outcomes; a dead one has exactly one, the last -/
 theorem runFrom_panics (tbl : Table E S R) (ced : Bool) (envs : Nat → E) (log : List (Nat × Bytes)) :
@@ -176,7 +176,7 @@ theorem runFrom_panics (tbl : Table E S R) (ced : Bool) (envs : Nat → E) (log 
         · exact ih'.1 hc o h
       · intro hc
         obtain ⟨pre, last, h1, h2, h3⟩ := ih'.2 hc
-        refine ⟨_ :: pre, last, by simp [h1], h2, ?_⟩
+        refine ⟨(dispatch tbl ced (envs pos) s idx buf).2 :: pre, last, by simp [h1], h2, ?_⟩
         intro o ho
         rcases List.mem_cons.mp ho with h | h
         · subst h; exact hp
